@@ -184,6 +184,8 @@ pub fn access_stmt(s: &Shader, g: &Global, how: &str, with: Option<&str>) -> Str
                     let rp = rt_path(s, t, n.clone()).expect("no runtime array");
                     format!("_ = arrayLength(&{rp});")
                 }
+                // the variable is named (its address taken) but neither read nor written: still a static use
+                ("addr", _) => format!("{{ let p_addr = &{n}; }}"),
                 ("load", Ty::Atomic { .. }) => format!("_ = atomicLoad(&{p});"),
                 ("store", Ty::Atomic { s: sc }) => format!("atomicStore(&{p}, {});", one(sc)),
                 ("atomic", Ty::Atomic { s: sc }) => format!("_ = atomicAdd(&{p}, {});", one(sc)),
